@@ -379,4 +379,18 @@ def step (s : Server) : Op → Server
 
 def run (s : Server) (ops : List Op) : Server := ops.foldl step s
 
+/-- operations as an uploader sees them: the direct calls above, or through the Foolscap front end
+    (`remote_allocate_buckets` on a connection, loss of a connection) -/
+inductive FOp where
+  | direct (op : Op)
+  | allocConn (c : Nat) (si : Nat) (shs : List Nat) (size : Nat) (rec : Bytes) (free : Nat) (order : List Nat)
+  | disconnect (c : Nat)
+
+def fstep (s : Server) : FOp → Server
+  | .direct op => step s op
+  | .allocConn c si shs size rec free order => (allocateConn s c si shs size rec free order).1
+  | .disconnect c => disconnectOp s c
+
+def frun (s : Server) (ops : List FOp) : Server := ops.foldl fstep s
+
 end Tahoe.Storage.Imm
